@@ -252,10 +252,11 @@ theorem overLimit_mono {limit : Option Nat} {a b : Nat} (h : overLimit limit a =
   | none => simp at h
   | some lim => simp at *; omega
 
-/-- rejection by one iteration is stable under extension, provided the presented bytes do not end
-    in a dangling CR (or there is no line limit): exactly the hypothesis that defect D2 violates -/
-theorem headerStep_append_error {limit : Option Nat} {rest : Bytes} {e : HErr}
-    (hs : headerStep limit rest = .error e) (hcr : limit = none ∨ rest.getLast? ≠ some CR) (d : Bytes) :
+/-- rejection by one iteration is stable under extension, provided no CRLF can straddle the seam
+    (or there is no line limit): exactly the hypothesis that defect D2 violates -/
+theorem headerStep_append_error {limit : Option Nat} {rest : Bytes} {e : HErr} (d : Bytes)
+    (hs : headerStep limit rest = .error e)
+    (hcr : limit = none ∨ rest.getLast? ≠ some CR ∨ d.head? ≠ some LF) :
     ∃ e', headerStep limit (rest ++ d) = .error e' := by
   unfold headerStep at hs ⊢
   by_cases hr : rest = []
@@ -268,7 +269,7 @@ theorem headerStep_append_error {limit : Option Nat} {rest : Bytes} {e : HErr}
       have hov : overLimit limit (rest.length + 2) = true := by
         apply Decidable.byContradiction; intro hc; simp [hc] at hs
       have hlimsome : limit ≠ none := by intro hn; simp [hn, overLimit] at hov
-      have hcr' : rest.getLast? ≠ some CR := by
+      have hcr' : rest.getLast? ≠ some CR ∨ d.head? ≠ some LF := by
         rcases hcr with h | h
         · exact absurd h hlimsome
         · exact h
@@ -281,9 +282,11 @@ theorem headerStep_append_error {limit : Option Nat} {rest : Bytes} {e : HErr}
         simp only
         have hi := findCrlf_append_of_none hf hf2
         have hi' : rest.length ≤ i := by
-          rcases hi with h | ⟨_, h⟩
+          rcases hi with h | ⟨_, h, h'⟩
           · exact h
-          · exact absurd h hcr'
+          · rcases hcr' with g | g
+            · exact absurd h g
+            · exact absurd h' g
         have : overLimit limit (i + 2) = true := overLimit_mono hov (by omega)
         simp [this]
     | some i =>
